@@ -1,7 +1,9 @@
 """Replay of local-maximum labelling cases into the real kernels (normal or sanitizer build).
 
 case: {"ns","nf","img":[...row-major ints...],"lout":[expected labels],"npk":n,"tiefree":0/1}
-Script mode (ASan):  python c13_replay.py <cases.jsonl> <out.json>
+Script mode (child process: sanitizer build, or normal build under an OpenMP environment):
+    python c13_replay.py <cases.jsonl> <out.json> [dense]
+    ("dense": only the dense kernel - the sparse kernels have no OpenMP region, an OpenMP environment cannot reach them)
 
 What one case exercises (run_case):
   dense   cImageD11.localmaxlabel at an EXPLICIT thread count (`threads`, read back through
@@ -130,7 +132,7 @@ def bump(stats, key, sub=None, n=1):
         d[str(sub)] = d.get(str(sub), 0) + n
 
 
-def run_case(case, mods, idx=0, threads=None, stats=None):
+def run_case(case, mods, idx=0, threads=None, stats=None, dense_only=False):
     cImageD11, sparseframe = mods
     ns, nf = case["ns"], case["nf"]
     img = np.array(case["img"], dtype=np.float32).reshape(ns, nf)
@@ -161,7 +163,7 @@ def run_case(case, mods, idx=0, threads=None, stats=None):
     if not np.array_equal(lab, exp):
         probs.append("localmaxlabel%s: labels %s differ from specification %s" % (tn, lab.ravel().tolist(), exp.ravel().tolist()))
     # sparse variants on interior threshold masks (tie-free only: the result is then unique)
-    if case.get("tiefree"):
+    if case.get("tiefree") and not dense_only:
         vals = sorted(set(case["img"]))
         for cut in (vals[len(vals) // 3], vals[(2 * len(vals)) // 3]):
             listed = img >= cut
@@ -237,6 +239,7 @@ def load_mods():
 
 def main():
     cases_path, out_path = sys.argv[1], sys.argv[2]
+    dense_only = len(sys.argv) > 3 and sys.argv[3] == "dense"
     mods = load_mods()
     out = {"n": 0, "problems": [], "stats": {}}
     with open(cases_path) as f:
@@ -246,7 +249,7 @@ def main():
             with open(out_path + ".cur", "w") as g:
                 g.write(str(idx))
             try:
-                p = run_case(case, mods, idx, threads=block_threads(idx, ASAN_THREADS, 64), stats=out["stats"])
+                p = run_case(case, mods, idx, threads=block_threads(idx, ASAN_THREADS, 64), stats=out["stats"], dense_only=dense_only)
             except ThreadsNotSet as e:
                 out["machinery"] = str(e)
                 break
